@@ -254,6 +254,12 @@ def _escape_predicate(rep, prog, pats, pred, cfg):
             return {inside != neg}
         return f"{name} = {pat!r}", table, pf.loc()
     h = prog.fn("stylua_lib", name)
+    # a helper that only wraps `REGEX.is_match(arg)`
+    im = [(b, t) for b, t in h.calls() if callee(t).endswith("Regex::is_match")]
+    if len(im) == 1 and any(r[0] == "call" and r[2] == im[0][0] for r in provenance(h, {"cp": {"l": 0}}, through=None)):
+        nm = _regex_static(h, im[0][1]["args"][0])
+        if nm is not None:
+            return _escape_predicate(rep, prog, pats, ("regex", nm), cfg)
     table = _char_table(h)
     if not rep.anchor(table is not None, f"escape predicate {name} is a match on the first character", cfg):
         return None
@@ -267,7 +273,7 @@ def rule_regex(ctx, prop):
         pats = {}
         for f, b, t in call_sites(prog, r"regex::Regex::new$", "stylua_lib"):
             lits = [r[1][2:] for r in provenance(f, t["args"][0], through=None) if r[0] == "const" and r[1].startswith("s:")]
-            m = re.search(r"format_token::(\w+) as std::ops::Deref", f.path)
+            m = re.search(r"(\w+) as std::ops::Deref", f.path)
             if m and len(lits) == 1:
                 pats[m.group(1)] = (lits[0], f)
         ft = prog.fn("stylua_lib", "formatters::general::format_token")
@@ -314,6 +320,12 @@ def rule_regex(ctx, prop):
                           f"groups 1 and 2 ({why}): escapes are not tokenised as the replacement closure assumes",
                           pf.loc(), cfg)
         # --- replacement closure table
+        # a closure that only forwards the captures to a named local function: analyse that function
+        if cl is not None:
+            local_calls = [(b, t) for b, t in cl.calls() if prog.fn("stylua_lib", callee(t)) is not None]
+            if len(local_calls) == 1 and any(r[0] == "call" and r[2] == local_calls[0][0]
+                                             for r in provenance(cl, {"cp": {"l": 0}}, through=None)):
+                cl = prog.fn("stylua_lib", callee(local_calls[0][1]))
         if rep.anchor(cl is not None, "replacement closure of format_token (third argument of replace_all)", cfg):
             try:
                 res = Enumerator(cl, summaries=False).run()
@@ -332,7 +344,9 @@ def rule_regex(ctx, prop):
                             quote_some = v == "Some"
                 qt = None
                 for k, v in st.disc.items():
-                    if k.startswith("upvar:"):
+                    if (k.startswith("upvar:") or k.startswith("arg:")) and \
+                            ((isinstance(v, str) and v in ("Single", "Double", "Brackets", "Backtick")) or
+                             (isinstance(v, tuple) and v[0] == "not" and set(v[1]) & {"Single", "Double"})):
                         qt = v
                 eqs = {}
                 for cb, dec in st.decisions.items():
@@ -440,51 +454,61 @@ def rule_regex(ctx, prop):
             except TooManyPaths:
                 res = []
                 rep.anchor(False, "format_token[Number]: too many paths", cfg)
+            import symstr
+
+            def is_text(fn_, term):
+                return callee(term).endswith("Token::token_type")
             seen = set()
             for st in res:
                 if not any(v == "Number" for v in st.disc.values()):
                     continue
-                sw = {}
+                trail = set(st.trail)
+                aggs = [(b_, s_) for b_, si_, s_ in ft.stmts() if b_ in trail and s_["k"] == "assign" and
+                        s_["rv"]["k"] == "agg" and s_["rv"].get("variant") == "Number" and s_["rv"].get("adt", "").endswith("TokenType")]
+                if not aggs:
+                    continue      # `_ => token.token_type().to_owned()`-style: unchanged
+                # what the path knows about how the text starts
+                prefix = ""
+                facts = []
                 for cb, dec in st.decisions.items():
                     t = ft.blocks[cb]["term"]
-                    if callee(t).endswith("starts_with"):
-                        pat = [r[1] for r in provenance(ft, t["args"][1], through=None) if r[0] == "const"]
-                        sw[pat[0] if pat else "?"] = dec
-                pre = []
-                for bi, c, t in st.calls:
-                    if c.endswith("From<&str>>::from") and is_const(t["args"][0]):
-                        pre.append(t["args"][0].get("s"))
-                dot = sw.get("v:.")
-                mdot = sw.get("s:-.")
-                if dot is True:
-                    want = ["0"]
-                elif mdot is True:
-                    want = ["-0"]
+                    if callee(t).split("::<")[0].endswith("<impl str>::starts_with") or callee(t).endswith("starts_with"):
+                        lit = symstr._const_str(ft, t["args"][1])
+                        facts.append((lit, dec))
+                        if dec and lit is not None and len(lit) > len(prefix):
+                            prefix = lit
+                for k, v in st.disc.items():
+                    if k.startswith("call:") and "." not in k and v == "Some":
+                        t = ft.blocks[int(k.split(":")[1])]["term"]
+                        if "strip_prefix" in callee(t):
+                            lit = symstr._const_str(ft, t["args"][1])
+                            facts.append((lit, True))
+                            if lit is not None and len(lit) > len(prefix):
+                                prefix = lit
+                pieces = symstr.sym(ft, aggs[0][1]["rv"]["ops"][0], trail, is_text)
+                norm = symstr.normalise(pieces, prefix) if pieces is not None else None
+                if norm == "contradiction":
+                    continue      # infeasible path (two incompatible prefix facts)
+                if prefix.startswith("."):
+                    allowed = {("0" + prefix, 0), (prefix, 0)}
+                elif prefix.startswith("-."):
+                    allowed = {("-0" + prefix[1:], 0), (prefix, 0)}
                 else:
-                    want = []
-                sig = (dot, mdot, tuple(pre))
+                    allowed = {(prefix, 0)}
+                sig = (tuple(sorted((str(a_), b_) for a_, b_ in facts)), str(pieces))
                 if sig in seen:
                     continue
                 seen.add(sig)
-                ok = pre == want
-                rep.inst(f"{ft.key} number starts_with('.')={dot} starts_with('-.')={mdot} prefix={pre}", None, cfg, ok=ok)
+                ok = norm in allowed
+                rep.inst(f"{ft.key} number text when it starts with {prefix!r}: {pieces}", {"normalised": str(norm)}, cfg, ok=ok)
                 if not ok:
-                    rep.violation(f"{ft.key} number-rewrite dot={dot} minusdot={mdot} prefix={pre}",
-                                  f"a numeric literal is prefixed with {pre} when starts_with('.') is {dot} and "
-                                  f"starts_with('-.') is {mdot}: the number denotes a different value", ft.loc(), cfg)
+                    what = "unrecognised-construction" if norm is None else f"result={norm[0]!r}+rest[{norm[1]}..]"
+                    rep.violation(f"{ft.key} number-rewrite starts-with={prefix!r} {what}",
+                                  f"a numeric literal known to start with {prefix!r} is rebuilt as {pieces} "
+                                  f"({'construction not understood, fail closed' if norm is None else 'normalised: ' + repr(norm)}); "
+                                  f"allowed: the text itself, or `0` inserted in front of a leading `.` / after a leading `-`: "
+                                  f"the number denotes a different value", ft.loc(aggs[0][1]["sp"]), cfg)
             rep.floor("number rewriting rows", len(seen), 3, cfg)
-            # the text of the rebuilt Number token is made from the original text and the constants above only
-            for b, si_, s_ in ft.stmts():
-                if s_["k"] == "assign" and s_["rv"]["k"] == "agg" and s_["rv"].get("variant") == "Number":
-                    calls = prov_calls(provenance(ft, s_["rv"]["ops"][0]))
-                    unknown = sorted({c.split("::")[-1] for c in calls if not NUMBER_CALLS.search(c)})
-                    rep.inst(f"{ft.key} Number text is built from the original text and constant prefixes", {"calls": sorted(calls)}, cfg,
-                             ok=not unknown)
-                    if unknown:
-                        rep.violation(f"{ft.key} number-rewrite unrecognised-construction calls={unknown}",
-                                      f"the text of a numeric literal is built through {unknown}: not the original text with "
-                                      f"a constant `0` / `-0` prefix under a starts_with test; the digits that reach the "
-                                      f"output cannot be established (fail closed)", ft.loc(s_["sp"]), cfg)
             # --- string literal aggregates: depth preserved, bracket strings keep Brackets
             adt = prog.adt("full_moon::tokenizer::TokenType", "stylua_lib")
             names = [x["name"] for v in adt["variants"] if v["name"] == "StringLiteral" for x in v["fields"]]
